@@ -158,6 +158,8 @@ pub fn run(ctx: &mut Ctx) {
             let b = ctx.budget_s;
             ctx.budget_s = b * 0.6;
             crate::c08::lane_slice(ctx);
+            ctx.budget_s = b * 0.8;
+            crate::c08::lane_slice_order(ctx);
             ctx.budget_s = b;
             crate::c08::lane_slice_exhaustive(ctx);
         }
